@@ -118,12 +118,12 @@ theorem pairwise_merge (sf : Nat → Nat → Bool)
 theorem selectState_spec (sf : Nat → Nat → Bool) (m : Mx) (h : m.Inv sf) :
     (m.selectState sf).Inv sf ∧ (m.selectState sf).st ≠ 0 ∧ (m.selectState sf).abs = m.abs ∧
     (m.selectState sf).s1.canReset = m.s1.canReset ∧ (m.selectState sf).s2.canReset = m.s2.canReset := by
-  rcases m with ⟨⟨a1, r1, c1, l1, e1⟩, ⟨a2, r2, c2, l2, e2⟩, st⟩
+  rcases m with ⟨⟨a1, r1, c1, l1, e1, g1, gl1⟩, ⟨a2, r2, c2, l2, e2, g2, gl2⟩, st⟩
   obtain ⟨hst, h1, h2, h3⟩ := h
   simp only at hst h1 h2 h3
   by_cases h0 : st = 0
   · subst h0
-    cases l1 <;> cases l2 <;> cases r1 <;> cases r2 <;>
+    cases l1 <;> cases l2 <;> cases r1 <;> cases r2 <;> cases gl1 <;> cases gl2 <;>
       simp [Mx.selectState, Src.fetch, Src.pending, Mx.abs, Mx.Inv] <;> grind
   · simp [Mx.selectState, h0, Mx.Inv]
     exact ⟨by omega, h1, h2, h3⟩
@@ -141,18 +141,18 @@ theorem next_refines_of_ne_zero (sf : Nat → Nat → Bool) (m : Mx) (h : m.Inv 
     (let r := m.next sf; Out.nx r.2.1 r.2.2) = (m.abs.step sf .next).2 ∧
     (m.next sf).1.abs = (m.abs.step sf .next).1 ∧ (m.next sf).1.Inv sf ∧
     (m.next sf).1.s1.canReset = m.s1.canReset ∧ (m.next sf).1.s2.canReset = m.s2.canReset := by
-  rcases m with ⟨⟨a1, r1, c1, l1, e1⟩, ⟨a2, r2, c2, l2, e2⟩, st⟩
+  rcases m with ⟨⟨a1, r1, c1, l1, e1, g1, gl1⟩, ⟨a2, r2, c2, l2, e2, g2, gl2⟩, st⟩
   obtain ⟨hst, h1, h2, h3⟩ := h
   simp only at hst h1 h2 h3 h0
   rcases hst with rfl | rfl | rfl | rfl
   · exact absurd rfl h0
-  · obtain ⟨rfl, ⟨rfl, rfl⟩ | ⟨rfl, hsf⟩⟩ := h1 rfl
+  · obtain ⟨rfl, ⟨rfl, rfl, rfl⟩ | ⟨rfl, hsf⟩⟩ := h1 rfl
     · simp [Mx.next, Mx.selectState, Src.pending, Mx.abs, S.step, Mx.Inv]
     · simp [Mx.next, Mx.selectState, Src.pending, Mx.abs, S.step, Mx.Inv, hsf]
-  · obtain ⟨rfl, ⟨rfl, rfl⟩ | ⟨rfl, hsf⟩⟩ := h2 rfl
+  · obtain ⟨rfl, ⟨rfl, rfl, rfl⟩ | ⟨rfl, hsf⟩⟩ := h2 rfl
     · simp [Mx.next, Mx.selectState, Src.pending, Mx.abs, S.step, Mx.Inv]
     · simp [Mx.next, Mx.selectState, Src.pending, Mx.abs, S.step, Mx.Inv, hsf]
-  · obtain ⟨rfl, rfl, rfl, rfl⟩ := h3 rfl
+  · obtain ⟨rfl, rfl, rfl, rfl, rfl, rfl⟩ := h3 rfl
     simp [Mx.next, Mx.selectState, Src.pending, Mx.abs, S.step, Mx.Inv]
 
 theorem next_eq_next_selectState (sf : Nat → Nat → Bool) (m : Mx) (h : m.Inv sf) :
@@ -177,7 +177,7 @@ theorem hasNext_refines (sf : Nat → Nat → Bool) (m : Mx) (h : m.Inv sf) :
   rw [← ha]
   simp only [Mx.hasNext]
   generalize m.selectState sf = m' at hi h0
-  rcases m' with ⟨⟨a1, r1, c1, l1, e1⟩, ⟨a2, r2, c2, l2, e2⟩, st⟩
+  rcases m' with ⟨⟨a1, r1, c1, l1, e1, g1, gl1⟩, ⟨a2, r2, c2, l2, e2, g2, gl2⟩, st⟩
   obtain ⟨hst, h1, h2, h3⟩ := hi
   simp only at hst h1 h2 h3 h0
   rcases hst with rfl | rfl | rfl | rfl
@@ -186,7 +186,7 @@ theorem hasNext_refines (sf : Nat → Nat → Bool) (m : Mx) (h : m.Inv sf) :
     simp [Mx.abs, Src.pending, merge_eq_nil_iff]
   · obtain ⟨rfl, _⟩ := h2 rfl
     simp [Mx.abs, Src.pending, merge_eq_nil_iff]
-  · obtain ⟨rfl, rfl, rfl, rfl⟩ := h3 rfl
+  · obtain ⟨rfl, rfl, rfl, rfl, rfl, rfl⟩ := h3 rfl
     simp [Mx.abs, Src.pending]
 
 theorem reset_refines (sf : Nat → Nat → Bool) (m : Mx)
@@ -194,7 +194,7 @@ theorem reset_refines (sf : Nat → Nat → Bool) (m : Mx)
     m.reset.2 = .ok ∧ m.reset.1.abs = { m.abs with p1 := m.abs.a1, p2 := m.abs.a2 } ∧
     m.reset.1.Inv sf ∧ m.reset.1.st = 0 ∧
     m.reset.1.s1.canReset = true ∧ m.reset.1.s2.canReset = true := by
-  rcases m with ⟨⟨a1, r1, c1, l1, e1⟩, ⟨a2, r2, c2, l2, e2⟩, st⟩
+  rcases m with ⟨⟨a1, r1, c1, l1, e1, g1, gl1⟩, ⟨a2, r2, c2, l2, e2, g2, gl2⟩, st⟩
   simp only at hr
   obtain ⟨rfl, rfl⟩ := hr
   simp [Mx.reset, Src.reset, Mx.abs, Src.pending, Mx.Inv]
@@ -252,9 +252,9 @@ theorem run_refines (sf : Nat → Nat → Bool) (ops : List Op) (m : Mx) (h : m.
     rw [b] at a' b'
     exact ⟨by rw [a, a'], b', c', d'⟩
 
-theorem init_inv (sf : Nat → Nat → Bool) (l1 l2 : List Nat) (r1 r2 : Bool) :
-    (Mx.init l1 l2 r1 r2).Inv sf ∧
-    (Mx.init l1 l2 r1 r2).abs = { p1 := l1, p2 := l2, a1 := l1, a2 := l2 } := by
+theorem init_inv (sf : Nat → Nat → Bool) (l1 l2 : List Nat) (r1 r2 : Bool) (g1 g2 : Bool := false) :
+    (Mx.init l1 l2 r1 r2 g1 g2).Inv sf ∧
+    (Mx.init l1 l2 r1 r2 g1 g2).abs = { p1 := l1, p2 := l2, a1 := l1, a2 := l2 } := by
   simp [Mx.init, Src.mk', Mx.Inv, Mx.abs, Src.pending]
 
 theorem drain_eq_merge (sf : Nat → Nat → Bool) (fuel : Nat) (m : Mx) (h : m.Inv sf)
@@ -301,4 +301,129 @@ theorem drain_eq_merge (sf : Nat → Nat → Bool) (fuel : Nat) (m : Mx) (h : m.
           simp [a, b, hsf] at ih' ⊢
           exact ih' (by simp at hf; omega)
 
+/-! ### vanishing tails change nothing: simulation between states that differ only in ghost flags -/
+
+/-- two sources agree on everything but the ghost flags (and the stale `e` of an empty look-ahead) -/
+def Src.Sim (s t : Src) : Prop :=
+  s.all = t.all ∧ s.rest = t.rest ∧ s.canReset = t.canReset ∧ s.load = t.load
+
+/-- the two mixers agree on `all`, `rest`, `canReset`, `load`, `st`, and on `e` whenever it can reach
+the output: the look-ahead is loaded, or the cached state still points at this source (the latter
+happens after a failed Reset, which clears `load`/`e` on both sides but keeps `st`). -/
+def Mx.Sim (m n : Mx) : Prop :=
+  m.s1.Sim n.s1 ∧ m.s2.Sim n.s2 ∧ m.st = n.st ∧
+  (m.s1.load = true ∨ m.st = 1 → m.s1.e = n.s1.e) ∧
+  (m.s2.load = true ∨ m.st = 2 → m.s2.e = n.s2.e)
+
+theorem fetch_sim (s t : Src) (h : s.Sim t) (he : s.load = true → s.e = t.e) :
+    s.fetch.Sim t.fetch ∧ (s.fetch.load = true → s.fetch.e = t.fetch.e) := by
+  rcases s with ⟨a, r, c, l, e, g, gl⟩
+  rcases t with ⟨a', r', c', l', e', g', gl'⟩
+  simp only [Src.Sim] at h he
+  obtain ⟨rfl, rfl, rfl, rfl⟩ := h
+  cases l <;> cases r <;> cases gl <;> cases gl' <;> simp_all [Src.fetch, Src.Sim]
+
+theorem selectState_sim (sf : Nat → Nat → Bool) (m n : Mx) (h : m.Sim n) :
+    (m.selectState sf).Sim (n.selectState sf) := by
+  obtain ⟨h1, h2, hst, he1, he2⟩ := h
+  by_cases h0 : m.st = 0
+  · have h0' : n.st = 0 := hst ▸ h0
+    obtain ⟨f1, fe1⟩ := fetch_sim _ _ h1 (fun hl => he1 (Or.inl hl))
+    obtain ⟨f2, fe2⟩ := fetch_sim _ _ h2 (fun hl => he2 (Or.inl hl))
+    simp only [Mx.selectState, h0, h0']
+    generalize m.s1.fetch = a1 at f1 fe1 ⊢
+    generalize n.s1.fetch = b1 at f1 fe1 ⊢
+    generalize m.s2.fetch = a2 at f2 fe2 ⊢
+    generalize n.s2.fetch = b2 at f2 fe2 ⊢
+    obtain ⟨_, _, _, hl1⟩ := id f1
+    obtain ⟨_, _, _, hl2⟩ := id f2
+    rw [← hl1, ← hl2]
+    cases hA : a1.load <;> cases hB : a2.load <;> simp [hA, hB] at fe1 fe2 ⊢
+    · exact ⟨f1, f2, rfl, by simp [hA], by simp [hB]⟩
+    · exact ⟨f1, f2, rfl, by simp [hA], by simp [hB, fe2]⟩
+    · exact ⟨f1, f2, rfl, by simp [hA, fe1], by simp [hB]⟩
+    · rw [← fe1, ← fe2]
+      split
+      · exact ⟨f1, f2, rfl, by simp [fe1], by simp [fe2]⟩
+      · exact ⟨f1, f2, rfl, by simp [fe1], by simp [fe2]⟩
+  · have h0' : n.st ≠ 0 := hst ▸ h0
+    rw [selectState_of_ne_zero sf m h0, selectState_of_ne_zero sf n h0']
+    exact ⟨h1, h2, hst, he1, he2⟩
+
+theorem hasNext_sim (sf : Nat → Nat → Bool) (m n : Mx) (h : m.Sim n) :
+    (m.hasNext sf).2 = (n.hasNext sf).2 ∧ (m.hasNext sf).1.Sim (n.hasNext sf).1 := by
+  have hs := selectState_sim sf m n h
+  simp only [Mx.hasNext]
+  exact ⟨by rw [hs.2.2.1], hs⟩
+
+theorem next_sim (sf : Nat → Nat → Bool) (m n : Mx) (h : m.Sim n) :
+    (m.next sf).2 = (n.next sf).2 ∧ (m.next sf).1.Sim (n.next sf).1 := by
+  have hs := selectState_sim sf m n h
+  simp only [Mx.next]
+  generalize m.selectState sf = m' at hs ⊢
+  generalize n.selectState sf = n' at hs ⊢
+  obtain ⟨h1, h2, hst, he1, he2⟩ := hs
+  by_cases c1 : m'.st = 1
+  · rw [if_pos c1, if_pos (hst ▸ c1)]
+    refine ⟨by rw [he1 (Or.inr c1)], ?_, h2, rfl, by simp, fun hl => he2 (Or.inl (by simpa using hl))⟩
+    obtain ⟨x1, x2, x3, _⟩ := h1
+    exact ⟨x1, x2, x3, rfl⟩
+  · by_cases c2 : m'.st = 2
+    · rw [if_neg c1, if_pos c2, if_neg (hst ▸ c1), if_pos (hst ▸ c2)]
+      refine ⟨by rw [he2 (Or.inr c2)], h1, ?_, rfl, fun hl => he1 (Or.inl (by simpa using hl)), by simp⟩
+      obtain ⟨x1, x2, x3, _⟩ := h2
+      exact ⟨x1, x2, x3, rfl⟩
+    · rw [if_neg c1, if_neg c2, if_neg (hst ▸ c1), if_neg (hst ▸ c2)]
+      exact ⟨rfl, h1, h2, hst, he1, he2⟩
+
+theorem src_reset_sim (s t : Src) (h : s.Sim t) :
+    s.reset.2 = t.reset.2 ∧ s.reset.1.Sim t.reset.1 ∧ s.reset.1.e = t.reset.1.e := by
+  rcases s with ⟨a, r, c, l, e, g, gl⟩
+  rcases t with ⟨a', r', c', l', e', g', gl'⟩
+  simp only [Src.Sim] at h
+  obtain ⟨rfl, rfl, rfl, rfl⟩ := h
+  cases c <;> simp [Src.reset, Src.Sim]
+
+theorem reset_sim (m n : Mx) (h : m.Sim n) :
+    m.reset.2 = n.reset.2 ∧ m.reset.1.Sim n.reset.1 := by
+  obtain ⟨h1, h2, hst, he1, he2⟩ := h
+  obtain ⟨a1, b1, c1⟩ := src_reset_sim _ _ h1
+  obtain ⟨a2, b2, c2⟩ := src_reset_sim _ _ h2
+  simp only [Mx.reset]
+  rw [← a1, ← a2]
+  cases hA : m.s1.reset.2
+  · simp only [Bool.not_false, if_true]
+    exact ⟨trivial, b1, h2, hst, fun _ => c1, he2⟩
+  · cases hB : m.s2.reset.2
+    · simp only [Bool.not_false, Bool.not_true, Bool.false_eq_true, if_true, if_false]
+      exact ⟨trivial, b1, b2, hst, fun _ => c1, fun _ => c2⟩
+    · simp only [Bool.not_true, Bool.false_eq_true, if_false]
+      exact ⟨trivial, b1, b2, rfl, fun _ => c1, fun _ => c2⟩
+
+theorem step_sim (sf : Nat → Nat → Bool) (m n : Mx) (op : Op) (h : m.Sim n) :
+    (m.step sf op).2 = (n.step sf op).2 ∧ (m.step sf op).1.Sim (n.step sf op).1 := by
+  cases op with
+  | hasNext =>
+    obtain ⟨a, b⟩ := hasNext_sim sf m n h
+    exact ⟨by simp [Mx.step, a], by simpa [Mx.step] using b⟩
+  | next =>
+    obtain ⟨a, b⟩ := next_sim sf m n h
+    exact ⟨by simp [Mx.step, a], by simpa [Mx.step] using b⟩
+  | reset =>
+    obtain ⟨a, b⟩ := reset_sim m n h
+    exact ⟨by simp [Mx.step, a], by simpa [Mx.step] using b⟩
+
+theorem run_sim (sf : Nat → Nat → Bool) (ops : List Op) (m n : Mx) (h : m.Sim n) :
+    (runI sf m ops).2 = (runI sf n ops).2 ∧ (runI sf m ops).1.Sim (runI sf n ops).1 := by
+  induction ops generalizing m n with
+  | nil => exact ⟨rfl, h⟩
+  | cons op ops ih =>
+    obtain ⟨a, b⟩ := step_sim sf m n op h
+    obtain ⟨a', b'⟩ := ih _ _ b
+    simp only [runI]
+    exact ⟨by rw [a, a'], b'⟩
+
+theorem init_sim (l1 l2 : List Nat) (r1 r2 g1 g2 g1' g2' : Bool) :
+    (Mx.init l1 l2 r1 r2 g1 g2).Sim (Mx.init l1 l2 r1 r2 g1' g2') := by
+  simp [Mx.init, Src.mk', Mx.Sim, Src.Sim]
 end Mixer
